@@ -548,6 +548,46 @@ fn indentation_errors(cx: &mut Ctx) {
                     });
                 }
             });
+            // the same decision in a `while COND { match .. }`: the loop can then also end through COND, so the statement
+            // after it must compare once more and return IndentationError on Greater
+            if !loop_ok {
+                struct B<'a> {
+                    blocks: Vec<&'a syn::Block>,
+                }
+                impl<'a> syn::visit::Visit<'a> for B<'a> {
+                    fn visit_block(&mut self, b: &'a syn::Block) {
+                        self.blocks.push(b);
+                        syn::visit::visit_block(self, b);
+                    }
+                }
+                let mut bv = B { blocks: vec![] };
+                syn::visit::Visit::visit_block(&mut bv, &m.block);
+                for b in bv.blocks {
+                    for w in b.stmts.windows(2) {
+                        let syn::Stmt::Expr(syn::Expr::While(wl), _) = &w[0] else { continue };
+                        let mut inner_ok = false;
+                        sm::for_each_expr_in_block(&wl.body, |x| {
+                            if let syn::Expr::Match(mm) = x {
+                                let mut arms: BTreeMap<String, String> = BTreeMap::new();
+                                for a in &mm.arms {
+                                    arms.insert(sm::tsc(&a.pat), sm::tsc(sm::unblock(&a.body)).trim_end_matches(';').to_string());
+                                }
+                                let less = arms.get("Ordering::Less").map_or(false, |b| b.starts_with("{self.indentations.pop();") && b.contains("self.emit((Tok::Dedent,"));
+                                let equal = arms.get("Ordering::Equal").map_or(false, |b| b == "break" || b == "{break;}");
+                                let greater = arms.get("Ordering::Greater").map_or(false, |b| b.contains("returnErr(LexicalError{") && b.contains("LexicalErrorType::IndentationError"));
+                                if arms.len() == 3 && less && equal && greater && sm::tsc(&mm.expr).contains("compare_strict(") {
+                                    inner_ok = true;
+                                }
+                            }
+                        });
+                        let after = sm::tsc(&w[1]);
+                        let recheck = after.starts_with("if") && after.contains("compare_strict(") && after.contains("Ordering::Greater") && after.contains("returnErr(LexicalError{") && after.contains("LexicalErrorType::IndentationError");
+                        if inner_ok && recheck {
+                            loop_ok = true;
+                        }
+                    }
+                }
+            }
             if loop_ok {
                 cx.ok(rule, "dedent loop: Less => pop+Dedent, Equal => break, Greater => Err(IndentationError)");
             } else {
